@@ -57,6 +57,19 @@ extern void (*g_cc_violation)(const char *fn_name, const char *what);
 
 uint64_t tcallv(const char *name, void *fn, int n, const uint64_t *v);
 
+// ---- pre-emption inside a call (C17 L2): when armed, the next state-changing library call is single-stepped and
+// after `n` instructions `fn` runs (another task's op, nested like a context switch); then the call resumes at full speed
+struct Preempt {
+        volatile int armed = 0;
+        volatile int stepping = 0;
+        volatile int fired = 0;
+        uint64_t n = 0, count = 0;
+        void (*fn)(void *) = nullptr;
+        void *arg = nullptr;
+};
+extern Preempt g_pre;
+void preempt_install();
+
 template <class T> static inline uint64_t to_u64(T x)
 {
         if constexpr (std::is_pointer<T>::value)
